@@ -72,6 +72,11 @@ func ruleClampSymmetry(r *Run) {
 							minCall = c
 						}
 					}
+					if b, ok := calleeObj(info, c).(*types.Builtin); ok && b.Name() == "min" && len(c.Args) == 2 {
+						if r.mentionsLen(fn, c.Args[1]) || r.mentionsLen(fn, c.Args[0]) {
+							minCall = c // the builtin
+						}
+					}
 				}
 				return true
 			})
@@ -418,7 +423,14 @@ func ruleGridAxes(r *Run) {
 					}
 				}
 			case *ast.CallExpr:
-				if f, ok := calleeObj(fn.Info(), v).(*types.Func); ok && f.FullName() == "math.Min" && len(v.Args) == 2 {
+				isMin := false
+				if f, ok := calleeObj(fn.Info(), v).(*types.Func); ok && f.FullName() == "math.Min" {
+					isMin = true
+				}
+				if b, ok := calleeObj(fn.Info(), v).(*types.Builtin); ok && b.Name() == "min" {
+					isMin = true
+				}
+				if isMin && len(v.Args) == 2 {
 					for _, pair := range [][2]ast.Expr{{v.Args[0], v.Args[1]}, {v.Args[1], v.Args[0]}} {
 						if iv := indexVar(fn, pair[0]); iv != nil {
 							if k := countKind(fn, pair[1], 0); k != "" && countKind(fn, pair[0], 0) == "" {
